@@ -47,7 +47,7 @@ MANIFEST = dict(
 )
 
 NEGS = [("Timing_neg_stale.cfg", "stale"), ("Timing_neg_thresh.cfg", "thresh"),
-        ("Timing_neg_early.cfg", "early"), ("Timing_neg_desched.cfg", "desched"), ("Timing_neg_noreset.cfg", "noreset"),
+        ("Timing_neg_early.cfg", "early"), ("Timing_neg_desched.cfg", "desched"), ("Timing_neg_noreset.cfg", "noreset"), ("Timing_neg_burstcache.cfg", "burstcache"),
         ("Timing_neg_nopace.cfg", "nopace"), ("Timing_neg_paceend.cfg", "paceend"),
         ("Timing_neg_doubledraw.cfg", "doubledraw"), ("Timing_wit_backlog.cfg", "witness_backlog_next_to_on_time")]
 
@@ -70,7 +70,8 @@ def design_level(thorough, res):
         def one(cfg):
             runs[cfg] = vlib.tlc("TimingMC", cfg, deadlock=False, timeout=3000, workers=6, heap="8g" if thorough else "4g")
         # the two large configurations of the thorough tier run next to the small ones
-        BIG = ("Timing_lazy2.cfg", "Timing_lazy22.cfg", "Timing_exh3i.cfg", "Timing_pace.cfg", "Timing_pace25.cfg")
+        BIG = ("Timing_lazy2.cfg", "Timing_lazy22.cfg", "Timing_exh3i.cfg", "Timing_pace.cfg", "Timing_pace25.cfg") + \
+              (() if thorough else ("Timing_lazy.cfg",))     # quick: the three small configurations run side by side
         big = [threading.Thread(target=one, args=(c,)) for c in cfgs if c in BIG]
         [t.start() for t in big]
         for cfg in cfgs:
@@ -165,7 +166,11 @@ def scripts_from_tlc(n_walks, n_pick, first_id=1, cfg="Timing_sim.cfg"):
             byi.setdefault(e["i"], []).append(e)
         # a waiter that has just discarded and then has to sleep for its next token
         resume = sum(1 for hh in byi.values() for x, y in zip(hh, hh[1:]) if x["d"] == "discard" and y["a"] < y["tok"])
-        return (min(flipped, 1) * 2 + min(resume, 1) * 2 + min(nd, 1) + min(late, 1), flipped + resume, nd + late)
+        # an equal-time burst worked off by one instance: a token fired, a later token with the SAME instant discarded
+        burst = sum(1 for hh in byi.values() for x, y in zip(hh, hh[1:])
+                    if x["tok"] == y["tok"] and x["d"] == "fire" and y["d"] == "discard")
+        return (min(flipped, 1) * 2 + min(resume, 1) * 2 + min(burst, 1) * 2 + min(nd, 1) + min(late, 1),
+                flipped + resume + burst, nd + late)
     classes = {}
     for w in walks:
         classes.setdefault((w["disc"], w["ninst"]), []).append(w)
@@ -185,8 +190,9 @@ def scripts_from_tlc(n_walks, n_pick, first_id=1, cfg="Timing_sim.cfg"):
     for j, w in enumerate(picked):
         h = sorted(w["hist"], key=lambda e: e["k"])
         cid = first_id + j
-        key = "false" if not w["disc"] else ("absent" if cid % 2 == 0 else "true")
-        cases.append({"id": cid, "kind": "script", "key": key, "ninst": w["ninst"],
+        key = "false" if not w["disc"] else ("absent", "true", "null")[cid % 3]
+        chan = ("stdin", "file", "cwd", "noext", "yml", "cwdconfig")[(cid // 3) % 6]   # input channel of cli.readConfig
+        cases.append({"id": cid, "kind": "script", "key": key, "chan": chan, "ninst": w["ninst"],
                       "toks": [e["tok"] for e in h], "resp": [e["r"] for e in h], "exp": [e["d"] for e in h],
                       "pa": [e["a"] - e["tok"] for e in h], "pb": [e["b"] - e["tok"] for e in h], "fin": w["fin"],
                       "lz": [e["lz"] for e in h], "starts": sorted(w["startAt"][:w["ninst"]]), "mw": mw,
@@ -206,9 +212,9 @@ CANARY = 1000000
 # Synthetic runs appended to every batch: TraceTiming MUST flag exactly these rules on them, otherwise the trace
 # specification has lost its teeth (machinery failure).  They never count as verdicts about the code.
 def canary_rows():
-    t = lambda run, k, tok, a, b, d, net=0, tag="", mw=0, pf=-1, dur=0, srv=0: {
+    t = lambda run, k, tok, a, b, d, net=0, tag="", mw=0, pf=-1, dur=0, srv=0, psleep=False: {
         "ev": "tok", "run": run, "k": k, "tok": tok, "a": a, "b": b, "d": d, "net": net, "tag": tag, "dur": dur,
-        "exp": "", "pa": 0, "pb": 0, "mw": mw, "pf": pf, "srv": srv, "gs": 0}
+        "exp": "", "pa": 0, "pb": 0, "mw": mw, "pf": pf, "srv": srv, "gs": 0, "psleep": psleep}
     c1, c2 = CANARY, CANARY + 1
     rows = [
         {"ev": "run", "run": c1, "kind": "canary", "key": "absent", "got": True, "ninst": 1, "desc": "canary on"},
@@ -225,13 +231,17 @@ def canary_rows():
         t(c2, 3, 100000, 3100000, 3600000, "fire", mw=1000000, pf=3100010, dur=1000000),           # next-shot-before-min-wait
         t(c2, 4, 100000, 3100000, 4700000, "fire", mw=1000000, pf=3600000, dur=999999),            # shot-shorter-than-min-wait
         t(c2, 5, 100000, 3100000, 5800000, "fire", mw=1000000, pf=4700000, dur=10500001, srv=2500000),  # paced-longer-than-needed
-        {"ev": "end", "run": c2, "end": 4000000, "left": 0, "drawn": 5, "err": "", "timeout": False, "last": 100000, "orphans": 0},
+        t(c2, 6, 100000, 3100000, 17000000, "fire", mw=1000000, pf=5800000, dur=2600000, srv=2500000, psleep=True),  # paced-although-served-longer
+        t(c2, 7, 100000, 3100000, 20000000, "fire", mw=1000000, pf=17000000, dur=1000000, srv=400000, psleep=True),  # fine: the wait was needed
+        {"ev": "end", "run": c2, "end": 4000000, "left": 0, "drawn": 7, "err": "", "timeout": False, "last": 100000, "orphans": 0},
         {"ev": "conf", "run": c2, "pool": 0, "key": "false", "got": True},
+        {"ev": "conf", "run": c2, "pool": 1, "key": "null", "got": False, "chan": "stdin"},
     ]
     expect = {(c1, "fired-two-seconds-late"), (c1, "discarded-inside-window"), (c1, "discard-not-marked"),
               (c1, "fired-early"), (c1, "shot-and-discarded"), (c1, "token-lost"), (c1, "run-not-bounded"),
               (c2, "default-not-applied"), (c2, "discarded-while-off"), (c2, "not-all-fired-while-off"),
-              (c2, "next-shot-before-min-wait"), (c2, "shot-shorter-than-min-wait"), (c2, "paced-longer-than-needed")}
+              (c2, "next-shot-before-min-wait"), (c2, "shot-shorter-than-min-wait"), (c2, "paced-longer-than-needed"),
+              (c2, "paced-although-served-longer")}
     return rows, expect
 
 
@@ -268,6 +278,8 @@ def validate(v, trace_path, cases_by_id):
         if seen[key] > 1 or sum(1 for k_ in seen if k_[0] == e["rule"]) > 6:
             continue
         sig = "rule=%s kind=%s key=%s" % (e["rule"], case.get("kind"), case.get("key"))
+        if e["rule"] == "default-not-applied":
+            sig += " channel=%s" % row.get("chan")
         if row["ev"] == "tok":
             what = ("token %d of run %d (%s): scheduled at %d us, handed out at %d us, %s at %d us (late by %d..%d us), "
                     "net=%s tag=%r%s" % (row["k"], e["run"], case.get("desc"), row["tok"], row["a"],
@@ -280,10 +292,10 @@ def validate(v, trace_path, cases_by_id):
                     replay_obj={"kind": "timing", "rule": e["rule"], "case": case, "line": row,
                                 "events": [r_ for r_ in rows if r_.get("run") == e["run"]]},
                     replay_name="%s_run%d.json" % (e["rule"], e["run"]))
-    if set(cgot) != cexpect or cgot[(CANARY, "discard-not-marked")] != 2 or cgot[(CANARY + 1, "default-not-applied")] != 2:
+    if set(cgot) != cexpect or cgot[(CANARY, "discard-not-marked")] != 2 or cgot[(CANARY + 1, "default-not-applied")] != 3:
         raise vlib.MachineryError("TraceTiming canary: flagged %s, expected %s" % (sorted(cgot.items()), sorted(cexpect)))
     rep["runs"] -= 2
-    rep["toks"] -= 11
+    rep["toks"] -= 13
     rep["canary"] = sum(cgot.values())
     rows = rows[:-len(crow)]
     if machinery and not v.violations:
@@ -303,14 +315,16 @@ def run(tier, v):
         uth.start()
     try:
         d = vlib.scratch("c04-timing-")
-        n_scripts, n_gap, n_lazy, n_random, n_walks, n_confs = (140, 60, 100, 160, 3000, 60) if thorough else (20, 8, 10, 28, 800, 12)
+        n_scripts, n_gap, n_lazy, n_random, n_walks, n_confs = (140, 60, 100, 160, 3000, 72) if thorough else (20, 8, 10, 28, 800, 24)
         n_pace = 40 if thorough else 6
+        n_burst = 60 if thorough else 8      # equal-time bursts (gap 0) with responses of about a second
         # script families (generated in parallel; ids are disjoint ranges):
         #   sim     prompt machine, 8 tokens            sim12  (thorough) 12 tokens, up to 11 s
         #   simgap  bursts separated by a pause longer than the window: a waiter that was behind has to sleep again
         #   simlazy descheduling of 3/6 ticks between Next() and the Waiter's clock reading (injected by the harness)
         fams = [("Timing_sim.cfg", n_scripts, 1)] + ([("Timing_sim12.cfg", 60, 2001)] if thorough else []) + \
-               [("Timing_simgap.cfg", n_gap, 4001), ("Timing_simlazy.cfg", n_lazy, 6001), ("Timing_simpace.cfg", n_pace, 8001)]
+               [("Timing_simgap.cfg", n_gap, 4001), ("Timing_simlazy.cfg", n_lazy, 6001), ("Timing_simpace.cfg", n_pace, 8001),
+                ("Timing_simburst.cfg", n_burst, 9001)]
         got = {}
 
         def gen(cfg, n, first):
@@ -375,7 +389,10 @@ def run(tier, v):
         "script_tokens_confirmed_on_script": rep["confirmed"], "script_tokens_off_script": rep["offscript"],
         "config_default_cases": {k_: sum(1 for c in cases.values() if c["key"] == k_) +
                                  sum(1 for r_ in rows if r_["ev"] == "conf" and r_["key"] == k_ and r_["run"] < CANARY)
-                                 for k_ in ("absent", "true", "false")},
+                                 for k_ in ("absent", "true", "false", "null")},
+        "config_channels": {ch: sum(1 for r_ in rows if r_["ev"] in ("conf", "run") and r_.get("chan") == ch and r_["run"] < CANARY)
+                            for ch in ("file", "yml", "noext", "stdin", "cwd", "cwdconfig")},
+        "burst_scripts_replayed": sum(1 for c in scripts if 9001 <= c["id"] < 10000),
         "trace_spec_canary_violations_flagged": rep["canary"],
         "pacing_scripts_real_scenario_gun": {"http": sum(1 for c in scripts if c.get("mw") and not c.get("grpc")),
                                              "grpc": sum(1 for c in scripts if c.get("mw") and c.get("grpc"))},
